@@ -16,6 +16,7 @@ func TestVerifC16(t *testing.T) {
 	explore.Main("C16", []explore.Part{
 		c16MgrPart("mgr", c16MgrCfg{}),
 		c16MgrPart("mgr-wide", c16MgrCfg{wide: true}),
+		c16MgrPart("mgr-deep", c16MgrCfg{deep: true}),
 		c16MgrPart("mgr-zerolen", c16MgrCfg{zero: true}),
 		c16MgrPart("mgr-uquic", c16MgrCfg{uquic: true}),
 		c16SpecPart("spec-limits"),
@@ -33,7 +34,7 @@ var c16Weights = []struct {
 	name string
 	w    float64
 }{
-	{"mgr", 3}, {"mgr-wide", 2}, {"mgr-zerolen", 0.1}, {"mgr-uquic", 3.5}, {"spec-limits", 0.1},
+	{"mgr", 3}, {"mgr-wide", 2}, {"mgr-deep", 2}, {"mgr-zerolen", 0.1}, {"mgr-uquic", 3.5}, {"spec-limits", 0.1},
 	{"gen-server", 1.5}, {"gen-client", 1.2}, {"gen-zerolen", 0.1}, {"transport", 2.5},
 }
 
